@@ -182,3 +182,40 @@ Proof.
   - destruct (recov st id) as [[s d]|]; cbn; repeat split.
   - destruct (stack st) as [|[[i s] d] k]; cbn; repeat split.
 Qed.
+
+(* ---- k-fold unsetID / recoverID of one channel ------------------------------------------------------ *)
+Definition leave_enter (st : pst) (f f' : bool) : pst := recover_id (unset_id st f) (cur st) f'.
+
+(* leaving a (nested) channel and coming back changes nothing but the recovery table, whose entry for this channel is
+   REFRESHED with the current counters -- whatever entry it held before (first, second, k-th unsetID alike) *)
+Lemma leave_enter_spec : forall st f f' i s d k, stack st = (i, s, d) :: k ->
+  leave_enter st f f' =
+  Pst (cur st) (sq st) f' (stack st) (updZ (recov st) (cur st) (Some (sq st, dls st)))
+      (filt st) (mbar st) (dbar st) (ed st) (rd st) (dls st) (dbuf st) (derr st) (rbuf st) (fbuf st).
+Proof.
+  intros st f f' i s d k E. unfold leave_enter, recover_id, unset_id. rewrite E. cbn. rewrite updZ_same. cbn. reflexivity.
+Qed.
+
+Fixpoint leave_enter_k (k : nat) (st : pst) (f : bool) : pst :=
+  match k with O => st | S k' => leave_enter (leave_enter_k k' st f) f true end.
+
+Theorem recover_k_fold : forall k st f i s d r, stack st = (i, s, d) :: r ->
+  let st' := leave_enter_k k st f in
+  cur st' = cur st /\ sq st' = sq st /\ dls st' = dls st /\ stack st' = stack st /\
+  (k <> O -> recov st' (cur st) = Some (sq st, dls st)).
+Proof.
+  induction k as [|k IH]; intros st f i s d r E; cbv zeta.
+  - cbn. repeat split; auto. intros N; contradiction.
+  - cbn [leave_enter_k]. destruct (IH st f i s d r E) as (C & S & D & K & _).
+    set (x := leave_enter_k k st f) in *.
+    assert (Ex : stack x = (i, s, d) :: r) by congruence.
+    rewrite (leave_enter_spec x f true i s d r Ex). cbn. rewrite C, S, D. repeat split; auto.
+    intros _. apply updZ_same.
+Qed.
+
+(* ... and with arbitrary traffic u between the visits (anything that stays on the channel): after the second, third, ...
+   unsetID the next recoverID continues exactly where the party left *)
+Theorem recover_after_traffic : forall st f1 f2 f3 f4 (u : pst -> pst),
+  let st1 := leave_enter st f1 f2 in let st2 := u st1 in let st3 := leave_enter st2 f3 f4 in
+  cur st3 = cur st2 /\ sq st3 = sq st2 /\ dls st3 = dls st2.
+Proof. intros. destruct (unset_then_recover st2 f3 f4) as (A & B & C & _). auto. Qed.
